@@ -56,6 +56,14 @@ private:
     T m_pad[3];
 };
 
+// plain structs (no constructors: what matters is the memory the wrappers hang on their members)
+struct Pt { int x; double y; };
+struct Arr { int n; int *vals; const char *name; };
+int ptSum(const Pt *p);
+void ptOut(Pt *p, int x);
+void ptScale(Pt *p, int k);
+int arrTotal(const Arr *a);
+
 Item *makeItem(int v);
 Item *borrowItem();
 Item *defaultItem();
